@@ -288,6 +288,25 @@ func rulesC03(cx *Ctx) []Obligation {
 	}
 	lp, _ := limb.Definite()
 	sm := sliceSel.FindStringSubmatch(lp)
+	if sm == nil {
+		// flat-index form: publicInputs[j*T+i] — the same windows [j·T, (j+1)·T) written as index arithmetic
+		jv0 := fmt.Sprintf("iv%d", jID)
+		for ri, re := range []*regexp.Regexp{
+			regexp.MustCompile(`^(.*)\[e:\+\(\*\(` + jv0 + `,(\d+)\),iv(\d+)\)\]\.Limb$`),
+			regexp.MustCompile(`^(.*)\[e:\+\(\*\((\d+),` + jv0 + `\),iv(\d+)\)\]\.Limb$`),
+			regexp.MustCompile(`^(.*)\[e:\+\(iv(\d+),\*\(` + jv0 + `,(\d+)\)\)\]\.Limb$`),
+		} {
+			if m := re.FindStringSubmatch(lp); m != nil {
+				t, iv := m[2], m[3]
+				if ri == 2 {
+					t, iv = m[3], m[2]
+				}
+				// rewrite into the window form the rest of the rule speaks: base[s:j*T:(j+1)*T][ivI]
+				sm = []string{lp, m[1], fmt.Sprintf("*(%s,%s)", jv0, t), fmt.Sprintf("*(+(%s,1),%s)", jv0, t), iv}
+				break
+			}
+		}
+	}
 	if sm == nil || !strings.HasSuffix(sm[1], ".PublicInputs") {
 		return append(obs, bad(key32, d32, "the packed limb is not an element of a sub-slice of the inner proof's public inputs: "+lp, r.site(eq)))
 	}
@@ -325,10 +344,19 @@ func rulesC03(cx *Ctx) []Obligation {
 			continue
 		}
 		p, ok := rec.Args[0].Definite()
-		if !ok || p != lp {
+		if !ok {
 			continue
 		}
-		if !rec.Must || !hasInt(rec.Loops, jID) || !hasInt(rec.Loops, iID) {
+		if p != lp {
+			// a separate sweep over the whole list of inner public inputs covers every limb as well
+			if m := regexp.MustCompile(`^` + regexp.QuoteMeta(sm[1]) + `\[iv\d+\]\.Limb$`).FindString(p); m == "" {
+				continue
+			}
+			if c, w := r.covered(rec, p); !c || !rec.Must {
+				why = "the width check does not cover every inner public input: " + w
+				continue
+			}
+		} else if !rec.Must || !hasInt(rec.Loops, jID) || !hasInt(rec.Loops, iID) {
 			why = "the width check of the limb is conditional or outside the packing loops"
 			continue
 		}
